@@ -256,15 +256,16 @@ example : ∀ r ∈ Rule.all, r ∈ ProvedTrAll ∨ r = .overlappingFieldsCanBeM
 def FullStatement_tr_invariance_all (T : Tr) (s : SchemaD) (fx : Fixes) (d : Doc) : Prop :=
   ∀ r ∈ Rule.all, (Silent s fx r (T.doc d) ↔ Silent s fx r d)
 
-/-- **perm_selections / perm_arguments / alpha_fragments for 25 rules**: code of /repo HEAD, documents with unique
+/-- **perm_selections / perm_arguments / alpha_fragments for 24 rules** (the 25 of `ProvedTrAll` without
+    SingleFieldSubscriptions, whose clause - the collected response keys, C06-H6 - is not shown invariant): code of /repo HEAD, documents with unique
     fragment names that are non-empty before and after the renaming (needed by NoFragmentCycles only) -/
 theorem tr_invariance_all25_partial (T : Tr) (hinj : ∀ a b, T.frag a = T.frag b → a = b) (s : SchemaD) (fx : Fixes)
     (hfx : HeadVars fx) (d : Doc) (hnd : Spec.uniqueFragmentNames d) (hne : NamesNonEmpty d)
-    (hne' : NamesNonEmpty (T.doc d)) (r : Rule) (hr : r ∈ ProvedTrAll) :
+    (hne' : NamesNonEmpty (T.doc d)) (r : Rule) (hr : r ∈ ProvedTrAll) (hns : r ≠ .singleFieldSubscriptions) :
     Silent s fx r (T.doc d) ↔ Silent s fx r d := by
   simp only [ProvedTrAll, List.mem_append, List.mem_cons, List.not_mem_nil, or_false] at hr
   rcases hr with (hr | rfl | rfl) | hr
-  · exact tr_invariance_all_partial T hinj s fx d r hr
+  · exact tr_invariance_all_partial T hinj s fx d r hr hns
   · exact tr_invariance_possible_fragment_spreads T hinj s fx d
   · exact tr_invariance_no_fragment_cycles T hinj s fx hfx.2.2.1 d hnd hne hne'
   · exact tr_invariance_variables T hinj s fx hfx.1 hfx.2.1 d r hr
